@@ -118,7 +118,7 @@ def from_hypergraph_dict(data, nodetype=None, edgetype=None, max_order=None):
                     raise TypeError(
                         f"Failed to convert edge IDs to type {nodetype}."
                     ) from e
-            H.add_node(idx, **dd)
+            H.add_nodes_from([(idx, dd)])  # not add_node(idx, **dd): an attribute may be called `node`
     except KeyError:
         raise XGIError("Failed to import node attributes.")
 
